@@ -272,6 +272,25 @@ func renderBody(w *world.World, s bastionStep, c world.Concrete) []byte {
 	return b.Bytes()
 }
 
+// bastionFront is how a run reaches the endpoint and reads the witness state back.
+type bastionFront struct {
+	post func(body []byte) (int, string, []byte)
+	snap func() snapshot
+}
+
+func bastionLogs(w *world.World) ([]config.Log, error) {
+	var logs []config.Log
+	for _, name := range w.P.Logs {
+		l := w.Logs[name]
+		lc, err := config.NewLog(l.Origin, l.Key.VKey(), "http://log.invalid/")
+		if err != nil {
+			return nil, err
+		}
+		logs = append(logs, lc)
+	}
+	return logs, nil
+}
+
 func execBastionRun(base *world.World, r bastionRun, storeKind, embed string, seed int64, dir string) ([]any, error) {
 	tag := fmt.Sprintf("%s-%s-%s-%d", r.ID, storeKind, embed, seed)
 	w := base.ForRun(tag, hashSeed(tag, seed))
@@ -288,14 +307,9 @@ func execBastionRun(base *world.World, r bastionRun, storeKind, embed string, se
 	if err != nil {
 		return nil, err
 	}
-	var logs []config.Log
-	for _, name := range w.P.Logs {
-		l := w.Logs[name]
-		lc, err := config.NewLog(l.Origin, l.Key.VKey(), "http://log.invalid/")
-		if err != nil {
-			return nil, err
-		}
-		logs = append(logs, lc)
+	logs, err := bastionLogs(w)
+	if err != nil {
+		return nil, err
 	}
 	limit := r.Limit
 	if limit < 0 {
@@ -303,8 +317,13 @@ func execBastionRun(base *world.World, r bastionRun, storeKind, embed string, se
 	}
 	h := bastion.VerifNewHandler(bastion.Config{Logs: logs, WitnessVerifier: witV, Limits: bastion.RequestLimits{TotalPerSecond: rate.Limit(limit)}},
 		omniwitness.VerifWitnessAdapter(wit))
+	front := bastionFront{post: func(b []byte) (int, string, []byte) { return serve(h, b) }, snap: func() snapshot { return takeSnapshot(w, st.p) }}
+	return driveBastion(w, r, tag, storeKind, embed, limit, front)
+}
+
+func driveBastion(w *world.World, r bastionRun, tag, storeKind, embed string, limit float64, front bastionFront) ([]any, error) {
 	events := []any{resetEvent{E: "reset", Run: tag, Store: storeKind, Embed: embed, Phase: -1}}
-	pre := takeSnapshot(w, st.p)
+	pre := front.snap()
 	var lastServedStart, lastServedEnd time.Time
 	for k, s := range r.Steps {
 		if s.SleepMS > 0 {
@@ -335,22 +354,18 @@ func execBastionRun(base *world.World, r bastionRun, storeKind, embed string, se
 			continue
 		}
 		body := renderBody(w, s, c)
-		req := httptest.NewRequest(http.MethodPost, "/", bytes.NewReader(body))
-		rec := httptest.NewRecorder()
 		start := time.Now()
-		h.ServeHTTP(rec, req)
+		status, ctype, rb := front.post(body)
 		end := time.Now()
-		resp := rec.Result()
-		rb, _ := io.ReadAll(resp.Body)
-		post := takeSnapshot(w, st.p)
-		ev := postEvent{E: "post", Run: tag, K: k, Kind: s.Kind, Log: s.Log, Req: rq, Status: resp.StatusCode, CType: resp.Header.Get("Content-Type"),
+		post := front.snap()
+		ev := postEvent{E: "post", Run: tag, K: k, Kind: s.Kind, Log: s.Log, Req: rq, Status: status, CType: ctype,
 			Stored: project(w, post), Unchanged: pre.equal(post), RefOK: "na", Limit: int(limit), SinceMS: -1, GapMS: -1,
 			Conc: fmt.Sprintf("old=%d size=%d proof=%d body=%dB %s", c.OldSize, c.Size, len(c.Proof), len(body), c.Note)}
 		if !lastServedStart.IsZero() {
 			ev.SinceMS = int(end.Sub(lastServedStart) / time.Millisecond)
 			ev.GapMS = int(start.Sub(lastServedEnd) / time.Millisecond)
 		}
-		if resp.StatusCode != http.StatusTooManyRequests {
+		if status != http.StatusTooManyRequests {
 			lastServedStart, lastServedEnd = start, end
 		}
 		ev.Body = classifyBody(w, rb, c.Text)
@@ -370,8 +385,8 @@ func execBastionRun(base *world.World, r bastionRun, storeKind, embed string, se
 		pre = post
 		for j := 0; j < fuzzPerStep && limit >= 1000; j++ {
 			fb := mutate(w.Rng, body)
-			fst, _, _ := serve(h, fb)
-			fpost := takeSnapshot(w, st.p)
+			fst, _, _ := front.post(fb)
+			fpost := front.snap()
 			events = append(events, postEvent{E: "post", Run: tag, K: k, Kind: "fuzz", Log: s.Log, Req: rq, Status: fst, Stored: project(w, fpost),
 				Unchanged: pre.equal(fpost), RefOK: "na", Limit: int(limit), SinceMS: -1, GapMS: -1, Body: respBody{Cls: "other", N: -1}, Conc: fmt.Sprintf("mutated body %dB", len(fb))})
 			pre = fpost
